@@ -140,7 +140,41 @@ func (fc *FnCtx) generateOnce(res *FuncResult) *Frame {
 				}
 			}
 		}
+		if spec.Flags["splitreturns"] != "" && len(fr.rets) > 1 {
+			// one postcondition obligation per return statement (single-path VCs); together they
+			// are equivalent to the obligation over the merged exit state
+			for ri, r := range fr.rets {
+				penv := &Env{fc: fc, fr: fr, st: r.st, old: entry, vars: map[string]Term{}, pkgName: pkgName}
+				for k, v := range vars {
+					penv.vars[k] = v
+				}
+				for i, rv := range r.vals {
+					if i < len(rn) {
+						rv.T = sig.Results().At(i).Type()
+						penv.vars[rn[i]] = rv
+						if i == 0 {
+							penv.vars["result"] = rv
+						}
+					}
+				}
+				for k, e := range append(append([]Clause(nil), spec.Ensures...), spec.EnsuresLocal...) {
+					t, err := fc.evalGoal(penv, e)
+					if err != nil {
+						res.Mismatch = append(res.Mismatch, fmt.Sprintf("ensures %d: %v", k+1, err))
+						continue
+					}
+					name := fmt.Sprintf("post.%d", k+1)
+					if e.Label != "" {
+						name = "post." + e.Label
+					}
+					fc.addObligation(r.st, "postcondition", fmt.Sprintf("%s.e%d", name, ri+1), t, fn.Pos(), e.Src)
+				}
+			}
+		}
 		for k, e := range append(append([]Clause(nil), spec.Ensures...), spec.EnsuresLocal...) {
+			if spec.Flags["splitreturns"] != "" && len(fr.rets) > 1 {
+				break
+			}
 			t, err := fc.evalGoal(post, e)
 			if err != nil {
 				res.Mismatch = append(res.Mismatch, fmt.Sprintf("ensures %d: %v", k+1, err))
